@@ -5,13 +5,22 @@
 # /verif/seeded/<prop>-<change>/, applies it to a scratch copy of /repo's HEAD (git worktree under
 # /tmp, removed afterwards), runs the quick tier of the named checks (default: <prop>) against
 # that copy (VERIF_REPO) and appends one JSON line per check to /verif/seeded/results.jsonl.
+# The checks run from a snapshot of /verif's committed HEAD (git worktree, $SEED_SNAP, default
+# /tmp/verif-snap; remove the directory to refresh it), so that work in /verif does not disturb them.
 # The official procedure (git -C /repo apply ... ; check ; git -C /repo checkout -- .) is
-# equivalent; the scratch copy only allows this to run while /repo is being worked on.
+# equivalent; the scratch copies only allow this to run while /repo and /verif are being worked on.
 set -u
 prop=$1; chg=$2; shift 2
 checks=${*:-$prop}
 src=/tmp/mut/$prop
 dst=/verif/seeded/$prop-$chg
+snap=${SEED_SNAP:-/tmp/verif-snap}
+if [ ! -x "$snap/bin/vcheck" ]; then
+  git -C /verif worktree prune
+  rm -rf "$snap"
+  git -C /verif worktree add --detach "$snap" HEAD >/dev/null 2>&1 || { echo "cannot create snapshot of /verif"; exit 2; }
+  (cd "$snap" && ./setup.sh >/dev/null 2>&1) || { echo "setup failed in snapshot"; exit 2; }
+fi
 mkdir -p "$dst"
 cp "$src/$chg.patch" "$dst/patch.diff"
 for f in "$src/$chg".demo*; do [ -e "$f" ] && cp "$f" "$dst/$(basename "$f" | sed "s/^$chg\.//")"; done
@@ -24,21 +33,23 @@ if ! git -C "$wt" apply "$dst/patch.diff"; then
   exit 2
 fi
 head=$(git -C /repo rev-parse --short HEAD)
+vhead=$(git -C "$snap" rev-parse --short HEAD)
 for c in $checks; do
   rp=/tmp/seedrp-$prop-$chg-$$
   rm -rf "$rp"; mkdir -p "$rp"
-  out=$(cd /verif && VERIF_REPO="$wt" VERIF_REPLAY_DIR="$rp" ./bin/vcheck "$c" --tier quick --no-evidence 2>&1)
+  out=$(cd "$snap" && VERIF_REPO="$wt" VERIF_REPLAY_DIR="$rp" ./bin/vcheck "$c" --tier quick --no-evidence 2>&1)
   rc=$?
   asserts=$(echo "$out" | grep -o "assertion=[^ ]*" | sort -u | tr '\n' ' ')
   runs=$(echo "$out" | grep -o "[0-9]* runs" | head -1)
   wall=$(echo "$out" | grep -o "wall [0-9.]*s" | head -1)
+  [ $rc -eq 2 ] && echo "$out" | tail -5
   # keep one minimised replay as the witness
   w=$(ls "$rp"/*.json 2>/dev/null | head -1)
   [ -n "$w" ] && cp "$w" "$dst/witness-$c.json"
-  python3 - "$prop-$chg" "$c" "$rc" "$asserts" "$runs" "$wall" "$head" <<'EOF' >> /verif/seeded/results.jsonl
+  python3 - "$prop-$chg" "$c" "$rc" "$asserts" "$runs" "$wall" "$head" "$vhead" <<'EOF' >> /verif/seeded/results.jsonl
 import json,sys
-seed,check,rc,asserts,runs,wall,head=sys.argv[1:8]
-print(json.dumps({"seed":seed,"check":check,"exit":int(rc),"caught":int(rc)==1,"assertions":asserts.split(),"runs":runs,"wall":wall,"repo_head":head}))
+seed,check,rc,asserts,runs,wall,head,vhead=sys.argv[1:9]
+print(json.dumps({"seed":seed,"check":check,"exit":int(rc),"caught":int(rc)==1,"assertions":[a.replace("assertion=","") for a in asserts.split()],"runs":runs,"wall":wall,"repo_head":head,"verif_head":vhead}))
 EOF
   echo "$prop-$chg check=$c exit=$rc $asserts"
 done
